@@ -53,6 +53,7 @@ class Ctx:
         self.vars: dict[str, Any] = {}
         self.witnesses: set[str] = set()
         self.model = None  # a model of the current path condition, when one is known (saves one query per fork)
+        self.concrete: Optional[dict] = None  # concrete replay mode: fresh_* hand out plain Python values from this model
 
     def check(self, *extra):
         t = time.perf_counter()
@@ -138,12 +139,16 @@ class Ctx:
             self.pos += 1
             self.trail.append((("n", tried), False))
             raise Abort()
-        val = self.solver.model().eval(expr, model_completion=True).as_long()
+        m = self.solver.model()
+        val = m.eval(expr, model_completion=True).as_long()
+        more = self.check(expr != val) != z3.unsat  # is there any other feasible value left? (saves an aborted re-run)
         self.pos += 1
-        self.forks += 1
-        self.trail.append((("v", val, tried), True))
+        if more:
+            self.forks += 1
+        self.trail.append((("v", val, tried), more))
         self.solver.add(expr == val)
-        return val  # the model just obtained satisfies expr == val: cache stays valid
+        self.model = m  # satisfies expr == val: cache stays valid
+        return val
 
     def assume(self, cond) -> None:
         e = getattr(cond, "e", cond)
@@ -151,14 +156,27 @@ class Ctx:
             if not e:
                 raise Abort()
             return
+        if self.concrete is not None:
+            v = z3.simplify(e)
+            if z3.is_false(v):
+                raise Abort()
+            if not z3.is_true(v):
+                raise EngineUnsupported(f"concrete replay met a non-constant assumption: {v}")
+            return
         self.solver.add(e)
         if self._model_says(e) is True:
             return
         if self.check() == z3.unsat:
             raise Abort()
 
+    pin: dict = {}  # debugging: name -> concrete value forced at declaration (see lib/debug.py)
+
     def declare(self, name: str, term):
         self.vars[name] = term
+        if name in Ctx.pin:
+            v = Ctx.pin[name]
+            self.solver.add(term == (z3.BoolVal(v) if isinstance(v, bool) else v))
+            self.model = None
         return term
 
     def witness(self, name: str) -> None:
@@ -187,6 +205,35 @@ class Ctx:
             else:
                 out[k] = str(v)
         return out
+
+
+def concrete_replay(harness: Callable[[Ctx], Any], model: dict, declared_exceptions: tuple = ()) -> Optional[str]:
+    """Re-run a harness natively with every fresh_int/fresh_bool replaced by the plain Python value from `model`
+    (no proxy objects reach the real code). Returns a description iff the property fails on this concrete input."""
+    ctx = Ctx([])
+    ctx.concrete = dict(model)
+    Ctx.cur = ctx
+    try:
+        ok = harness(ctx)
+    except Abort:
+        return None  # the model does not satisfy the harness assumptions when made concrete
+    except declared_exceptions:
+        return None
+    except EngineUnsupported:
+        raise
+    except Exception as e:
+        return f"real code raises {type(e).__name__}: {e}"
+    ok = getattr(ok, "e", ok)
+    if isinstance(ok, bool):
+        return None if ok else "oracle evaluates to False on the concrete input"
+    v = z3.simplify(ok)
+    if z3.is_false(v):
+        return "oracle evaluates to False on the concrete input"
+    if z3.is_true(v):
+        return None
+    s = z3.Solver()
+    s.add(z3.Not(ok))
+    return "oracle can be False on the concrete input" if s.check() == z3.sat else None
 
 
 @dataclass
